@@ -36,26 +36,26 @@ func registerProps() {
 	reg(&propDef{
 		ID: "C02", Pkg: "internal/transfer", Level: "fault_enumeration",
 		Quick: 3000, Thorough: 120000, QuickWall: 6 * time.Minute, ThorWall: 45 * time.Minute,
-		Rule:   "each run = one seeded workload/configuration/schedule (as C03, 1-4 files) executed once fault-free to count its deliveries, then again with 1-2 faults: graceful close(0) by either side, abrupt loss, context cancel of sender or receiver, bit flip in chunk payload or CRC field, source file shrunk/unlinked after the scan, output path obstructed, n-th receiver file operation failing with ENOSPC/EIO/EACCES; connection-level faults are anchored to a delivery index of the fault-free execution (drawn per run; in the thorough tier every 10th spec places its fault at EVERY delivery index 0..D); non-trivial = a fault actually fired; distinct by decision-log hash",
+		Rule: "each run = one seeded workload/configuration/schedule (as C03, 1-4 files) executed once fault-free to count its deliveries, then again with 1-2 faults: graceful close(0) by either side, abrupt loss, context cancel of sender or receiver, bit flip in chunk payload or CRC field, source file shrunk/unlinked after the scan, output path obstructed, n-th receiver file operation failing with ENOSPC/EIO/EACCES; connection-level faults are anchored to a delivery index of the fault-free execution (drawn per run; in the thorough tier every 10th spec places its fault at EVERY delivery index 0..D); non-trivial = a fault actually fired; distinct by decision-log hash",
 		Real: txReal, Stub: txStub, Assume: append([]string{"bit flips model a corrupting peer/NIC below the chunk CRC; QUIC itself authenticates packets"}, txAssume...),
 	})
 	resumeRule := "each run = a history: 1-3 interrupted runs (receiver killed at a drawn crash point = file-system or network operation of the receiver process, optionally tearing the operation in flight; sender killed; abrupt loss; close; cancel), each with its own seeded schedule biased to let the 1 s sidecar flusher tick between the steps of the data readers, on 1-4 files of 1-8 chunks with resume enabled; positions are fractions of the crash points counted in a crash-free execution of the same schedule; in the thorough tier every 20th spec kills the receiver at EVERY file-system crash point of one schedule"
 	reg(&propDef{
 		ID: "C04", Pkg: "internal/transfer", Level: "fault_enumeration",
 		Quick: 2000, Thorough: 80000, QuickWall: 6 * time.Minute, ThorWall: 45 * time.Minute,
-		Rule:   resumeRule + "; then a healthy resumed run into the same output directory: it must succeed on both sides with a tree identical to the source, and the first FileResumeInfo per file must advertise at least the chunks marked in the sidecar found after the kill",
+		Rule: resumeRule + "; then a healthy resumed run into the same output directory: it must succeed on both sides with a tree identical to the source, and the first FileResumeInfo per file must advertise at least the chunks marked in the sidecar found after the kill",
 		Real: txReal, Stub: txStub, Assume: append([]string{"crash = kill -9 of one process: its memory is lost, everything its completed system calls wrote survives (no power-loss reordering; the code never syncs)"}, txAssume...),
 	})
 	reg(&propDef{
 		ID: "C05", Pkg: "internal/transfer", Level: "fault_enumeration",
 		Quick: 2500, Thorough: 80000, QuickWall: 6 * time.Minute, ThorWall: 45 * time.Minute,
-		Rule:   resumeRule + "; oracle evaluated on every crash image: each sidecar the repo's LoadSidecar accepts and whose identity matches a manifest file marks only chunks whose bytes in the output file equal the source; each sidecar path holds exactly the version installed by the last completed rename/write (atomic replacement)",
+		Rule: resumeRule + "; oracle evaluated on every crash image: each sidecar the repo's LoadSidecar accepts and whose identity matches a manifest file marks only chunks whose bytes in the output file equal the source; each sidecar path holds exactly the version installed by the last completed rename/write (atomic replacement)",
 		Real: txReal, Stub: txStub, Assume: append([]string{"crash = kill -9 of one process: its memory is lost, everything its completed system calls wrote survives; a rename is atomic, a write may be torn at any byte"}, txAssume...),
 	})
 	reg(&propDef{
 		ID: "C06", Pkg: "internal/transfer", Level: "exploration",
 		Quick: 2000, Thorough: 80000, QuickWall: 6 * time.Minute, ThorWall: 45 * time.Minute,
-		Rule:   resumeRule + "; then 1-2 storage damages applied to the state left behind (sidecar truncated at a drawn length, single bit flipped, garbage, well-formed all-complete sidecar of another size / chunk size / id, stale all-complete sidecar, .tmp leftover, data file deleted or shortened with the sidecar present, highest marked chunk torn), then a healthy resumed run: identical tree or a loud failure, never success with a different tree",
+		Rule: resumeRule + "; then 1-2 storage damages applied to the state left behind (sidecar truncated at a drawn length, single bit flipped, garbage, well-formed all-complete sidecar of another size / chunk size / id, stale all-complete sidecar, .tmp leftover, data file deleted or shortened with the sidecar present, highest marked chunk torn), then a healthy resumed run: identical tree or a loud failure, never success with a different tree",
 		Real: txReal, Stub: txStub, Assume: txAssume,
 	})
 	reg(&propDef{
@@ -65,5 +65,13 @@ func registerProps() {
 		Real:   []string{"internal/transfer.RecvManifestMultiStream and everything below it (instrumented copy of the current working tree)", "OS file system behind the interposition layer (every path the receiver touches is logged)"},
 		Stub:   []string{"sender: byte script built with the repo's encoders (FileBegin hand-encoded because the encoder validates paths)", "QUIC: SimNet"},
 		Assume: []string{"hostile strings come from a fixed pool of escape patterns (input generation is plain seeded generation; the simulator contributes the peer, sandbox accounting and schedule)", "Unix path semantics"},
+	})
+	reg(&propDef{
+		ID: "C15", Pkg: "internal/transfer", Level: "exploration", MemLimitKB: 3 * 1024 * 1024,
+		Quick: 4000, Thorough: 150000, QuickWall: 5 * time.Minute, ThorWall: 30 * time.Minute,
+		Rule:   "each run = a healthy small transfer is recorded in the simulator (all streams, both directions), 1-2 seeded mutations are applied to the transcript (truncation at a drawn byte, byte set to 0/255/+-1, 16/32-bit fields overwritten with 0 or all-ones, duplicated/dropped/inserted ranges, record type bytes replaced at record boundaries, wrong magic, absurd values in manifest-length / frame index / frame length fields) and the result is replayed by a scripted peer against the real receiver (2/3) or the real sender (1/3) with seeded segmentation; the script FINs every stream and optionally closes the connection; non-trivial = a mutation applied and more than 10 scheduling steps, distinct by decision-log hash",
+		Real:   []string{"internal/transfer decoders, RecvManifestMultiStream, SendManifestMultiStream (instrumented copy of the current working tree)"},
+		Stub:   []string{"peer: byte script derived from a recorded healthy run", "QUIC: SimNet"},
+		Assume: []string{"memory is judged by the Go runtime's TotalAlloc delta of the worker process over the run (limit 64 x bytes received + 48 MiB); a worker process runs one simulation at a time", "mutations are ordinary seeded mutation; the simulator contributes end-of-input semantics, segmentation and hang detection on the fake clock"},
 	})
 }
